@@ -196,6 +196,15 @@ inline void print_summary() {
   }
   fflush(stdout);
 }
+#if defined(__has_feature)
+#if __has_feature(address_sanitizer)
+extern "C" void __asan_unpoison_memory_region(void const volatile*, size_t);
+#define ND_ASAN_UNPOISON(p, n) __asan_unpoison_memory_region((p), (n))
+#endif
+#endif
+#ifndef ND_ASAN_UNPOISON
+#define ND_ASAN_UNPOISON(p, n) ((void)0)
+#endif
 // caching allocator behind mju_user_malloc: blocks are never returned to the C library, so big mjData
 // buffers do not churn through mmap/munmap (which serialises concurrent driver processes in this VM)
 struct CacheAlloc {
@@ -207,11 +216,13 @@ struct CacheAlloc {
     Hdr* h = bins[b];
     if (h) bins[b] = h->next;
     else { h = (Hdr*)aligned_alloc(64, sizeof(Hdr) + ((size_t)64 << b)); if (!h) return nullptr; }
+    ND_ASAN_UNPOISON((char*)h, sizeof(Hdr) + ((size_t)64 << b));   // a recycled block may carry the engine's arena poison
     h->sz = n; h->next = nullptr;
     return (char*)h + sizeof(Hdr);
   }
   static void release(void* p) {
     if (!p) return;
+    ND_ASAN_UNPOISON((char*)p - sizeof(Hdr), sizeof(Hdr));
     Hdr* h = (Hdr*)((char*)p - sizeof(Hdr));
     int b = bin(h->sz ? h->sz : 1);
     h->next = bins[b]; bins[b] = h;
